@@ -41,6 +41,7 @@
 mod builders;
 mod date_time;
 mod exceptions;
+mod fields;
 mod gen_server_terms;
 mod map_set;
 mod range;
